@@ -38,6 +38,8 @@ ops and args (a REF is a habutax line name of the same form, or "form.line" when
   smaller    [X, Y]    larger [X, Y]    X, Y: REF or CONST
   carry      [REF]                      the amount of another line ("from Schedule 1, line 10", "Enter the amount from line 4")
   cond       [{"cmp": "gt|ge|lt|le", "a": REF, "b": REF}, INSTR, INSTR]   INSTR = {"op":..., "args":...} | {"op": "blank"}
+One contextual rule: "Subtract line 33 from line 24. This is the amount you owe." (heading "Amount You Owe", the complement
+of "34. If line 33 is more than line 24, subtract ...") is read as cond(24 > 33, 24 - 33, blank): nothing is owed otherwise.
 "when": "source_filed" marks a carry read off the SOURCE line ("Enter here and on Form 1040, line 8"): it binds only when
 the source form is part of the return (habutax `needs_filing`).
 """
@@ -669,18 +671,6 @@ def from_transcriptions(cat, tpl, path=TRANSCRIPTIONS):
     return out, bad
 
 
-def _own_with_names(rs):
-    """transcriptions may name habutax lines that are not printed labels ('clwkst_a_3', '1_amount_0')"""
-    def own(lab):
-        fld = rs.f['fields'].get(lab)
-        if fld is None:
-            return None, 'absent'
-        if fld['kind'] not in AMOUNT_KINDS:
-            return None, 'non_amount'
-        return lab, None
-    return own
-
-
 def _raw_from_json(raw):
     """json form of a raw instruction -> the internal one (items as tuples)"""
     r = dict(raw)
@@ -696,8 +686,6 @@ def _raw_from_json(raw):
         r['then'] = _raw_from_json(r['then'])
         if 'else' in r:
             r['else'] = _raw_from_json(r['else'])
-    if r['op'] == 'carry' and r.get('form'):
-        r = dict(r)
     return r
 
 
